@@ -2,15 +2,16 @@
 # Confirms every delivered mutation in a scratch worktree: (1) patch only -> whole suite passes,
 # (2) patch + demo -> demo fails, (3) demo only -> demo passes. Results: /tmp/mut/confirm/<id>-<m>.txt
 set -u
-WT=/tmp/mut/confirm-wt
-OUT=/tmp/mut/confirm
+ROOT=${1:-/tmp/mut}
+WT=$ROOT/confirm-wt
+OUT=$ROOT/confirm
 mkdir -p $OUT
 export CARGO_NET_OFFLINE=true
-export CARGO_TARGET_DIR=/tmp/mut/confirm-target
-for d in /tmp/mut/C*/out/m*; do
-  id=$(echo $d | sed 's|/tmp/mut/\(C[0-9]*\)/out/\(m[0-9]*\)|\1-\2|')
+export CARGO_TARGET_DIR=$ROOT/confirm-target
+for d in $ROOT/C*/out/m*; do
+  id=$(echo $d | sed "s|$ROOT/\(C[0-9]*\)/out/\(m[0-9]*\)|\1-\2|")
   [ -f $OUT/$id.txt ] && continue
-  [ -f $d/patch.diff ] || continue
+  [ -f $d/patch.diff ] && [ -f $d/demo.patch ] && [ -f $d/meta.json ] || continue
   base=$(git -C /repo rev-parse HEAD)
   rm -rf $WT; git -C /repo worktree prune; git -C /repo worktree add -q --detach $WT $base || continue
   cmd=$(python3 -c "import json;print(json.load(open('$d/meta.json'))['demo_cmd'])")
